@@ -58,7 +58,7 @@ CHECKS.update({
              "graph literal has the source literal's class, exact u128 value, sign (a directly applied minus yields the negated literal), "
              "unit (6 units and im, with and without a blank), bit strings keep their bits and their bit count is the type's width.",
         note="Trusted: from_str_radix model (exact arithmetic), string and text-size models, abstract token (text + symbolic start offset), "
-             "tree / map models, MIR dump, z3. Bounds: accessors <= 5 (quick) / 9 (thorough) digit characters; graph arm decimal <= 9 / 12, hex "
+             "tree / map models, MIR dump, z3. Bounds: accessors <= 5 (quick) / 7 (thorough) digit characters; graph arm decimal <= 9 / 12, hex "
              "<= 4 / 8 digits, bit strings <= 8 / 16 bits; float rounding declined (float texts are compared, values are opaque).",
         technique=MC, design="6/C10"),
     "C11": dict(
